@@ -110,3 +110,37 @@ Example wire_examples :
   parse_authorization_code_response "https://c.example/cb?code=abc&state=xyz" (Some "other") = PErr "mismatching_state" /\
   parse_implicit_response "https://c.example/cb#access_token=t&token_type=bearer&state=" (Some "xyz") = PErr "mismatching_state".
 Proof. vm_compute. repeat split. Qed.
+
+(* a response is handed to the client only with the state the client expects: whenever an expected state is given (non-empty),
+   the parsed parameters carry exactly that state -- equality, character for character -- for both kinds of response;
+   every other state, and a missing one, is reported as mismatching_state *)
+Theorem code_response_state_is_the_expected_one :
+  forall uri expected params,
+  expected <> "" ->
+  parse_authorization_code_response uri (Some expected) = PParams params ->
+  lookup_pair "state" params = Some expected.
+Proof.
+  intros uri expected params Hne. unfold parse_authorization_code_response.
+  destruct (lookup_pair "code" _); [|discriminate].
+  unfold state_mismatch. apply String.eqb_neq in Hne. rewrite Hne.
+  destruct (lookup_pair "state" _) as [g|] eqn:E; [|discriminate].
+  destruct (String.eqb g expected) eqn:Eg; simpl; [|discriminate].
+  intros H. injection H as <-. apply String.eqb_eq in Eg. subst g. exact E.
+Qed.
+Print Assumptions code_response_state_is_the_expected_one.
+
+Theorem implicit_response_state_is_the_expected_one :
+  forall uri expected params,
+  expected <> "" ->
+  parse_implicit_response uri (Some expected) = PParams params ->
+  lookup_pair "state" params = Some expected.
+Proof.
+  intros uri expected params Hne. unfold parse_implicit_response.
+  destruct (lookup_pair "access_token" _); [|discriminate].
+  destruct (lookup_pair "token_type" _); [|discriminate].
+  unfold state_mismatch. apply String.eqb_neq in Hne. rewrite Hne.
+  destruct (lookup_pair "state" _) as [g|] eqn:E; [|discriminate].
+  destruct (String.eqb g expected) eqn:Eg; simpl; [|discriminate].
+  intros H. injection H as <-. apply String.eqb_eq in Eg. subst g. exact E.
+Qed.
+Print Assumptions implicit_response_state_is_the_expected_one.
